@@ -674,6 +674,16 @@ class Builder:
                 sname = self.fresh('a')
                 self.declare(VarInfo(sname, ty, const=True, static_len=len(sib)))
                 out.append(Decl(ty, True, sname, ArrLit(sib, t=ty)))
+                if el in (INT, BYTE) and all(isinstance(x, Lit) and 0 <= x.value <= 255 for x in elems) and self.chance(60):
+                    # the same numbers as a constant of the other element width: equal values must not mean shared storage
+                    oel = BYTE if el == INT else INT
+                    oty = arr(oel, True)
+                    oname = self.fresh('a')
+                    oelems = [Lit('char', x.value, None, t=BYTE) if oel == BYTE else Lit('int', x.value, None, t=INT) for x in elems]
+                    self.declare(VarInfo(oname, oty, const=True, static_len=n))
+                    out.append(Decl(oty, True, oname, ArrLit(oelems, t=oty)))
+                    lastx = Index(Var(oname, t=oty), Lit('int', n - 1, None, t=INT), t=oel)
+                    out.append(ExprStmt(Call('writeln', [Is(lastx, INT, t=INT) if oel == BYTE else lastx], t=EMPTY)))
                 for nm, ln in ((name, n), (sname, len(sib))):
                     out.append(ExprStmt(Call('write', [Len(Var(nm, t=ty), t=INT)], t=EMPTY)))
                     last = Index(Var(nm, t=ty), Lit('int', ln - 1, None, t=INT), t=el)
@@ -763,6 +773,34 @@ class Builder:
             e = Bin('*', Lit('int', 0, None, t=INT), look, t=INT)
         return [ExprStmt(e)] + self.probe(Var(g.name, t=INT))
 
+    def narrowed_index_store(self):
+        """`a[(x * 0 + (256 * m + k)) is byte] (op)= v;` - the index is a computed int outside 0..255 narrowed to byte: the
+        store (and the bounds check, and the old value of a compound assignment) must use the low byte."""
+        arrs = self.vars_of(lambda v: is_arr(v.ty) and not v.ty[2] and v.static_len and v.ty[1] in (INT, BYTE, BOOL))
+        ints = self.vars_of(lambda v: v.ty == INT)
+        if not arrs or not ints or 'bytes' not in self.F:
+            return None
+        a = self.pick(arrs)
+        el = a.ty[1]
+        k = self.integer(0, a.static_len - 1)
+        big = 256 * self.integer(1, 3) + k
+        x = self.pick(ints)
+        form = self.integer(0, 2)
+        if form == 0:
+            e = Bin('+', Paren(Bin('*', Var(x.name, t=INT), Lit('int', 0, None, t=INT), t=INT), t=INT), Lit('int', big, None, t=INT), t=INT)
+        elif form == 1:
+            e = Bin('+', Len(Var(a.name, t=a.ty), t=INT), Lit('int', big - a.static_len, None, t=INT), t=INT)
+        else:
+            e = Bin('-', Lit('int', big, None, t=INT), Paren(Bin('*', Var(x.name, t=INT), Lit('int', 0, None, t=INT), t=INT), t=INT), t=INT)
+        tgt = Index(Var(a.name, t=a.ty), Is(Paren(e, t=INT), BYTE, t=BYTE), t=el)
+        val = {INT: lambda: self.int_lit(), BYTE: lambda: self.byte_lit(), BOOL: lambda: Lit('bool', self.chance(50), None, t=BOOL)}[el]()
+        if el in (INT, BYTE) and self.chance(45):
+            st_ = AugAssign(tgt, self.pick(['+', '-']), val if el == INT else self.byte_lit())
+        else:
+            st_ = Assign(tgt, val)
+        shown = Index(Var(a.name, t=a.ty), Lit('int', k, None, t=INT), t=el)
+        return [st_] + self.probe(Is(shown, INT, t=INT) if el == BYTE else shown)
+
     def index_clobber(self):
         """`g = k; a[g] (op)= <expr calling g's mutator>;` - the index is a bare global that the right-hand side changes
         after it was evaluated (and bounds-checked): the store must go to the old index."""
@@ -796,6 +834,10 @@ class Builder:
         # scalar variable, plain or compound
         if 'arrays' in self.F and 'globals' in self.F and 'calls' in self.F and not self.in_spec and self.chance(self.size.get('index_clobber_pct', 6)):
             r = self.index_clobber()
+            if r is not None:
+                return r
+        if 'arrays' in self.F and 'bytes' in self.F and self.chance(5):
+            r = self.narrowed_index_store()
             if r is not None:
                 return r
         vs = self.vars_of(lambda v: not is_arr(v.ty) and not v.const and not v.frozen)
@@ -1686,7 +1728,7 @@ DEFAULT_SIZE = dict(expr_depth=3, arr_len=5, loop_iters=4, loop_nest=2, func_stm
 def programs(draw, features=SEQ_FEATURES, ws=None, size=None):
     """-> (Program, argv values, ws)"""
     if ws is None:
-        ws = draw(st.sampled_from([2, 2, 3, 4, 8]))
+        ws = draw(st.sampled_from([2, 2, 2, 2, 3, 3, 4, 4, 8, 8, 5, 6]))
     sz = dict(DEFAULT_SIZE)
     if size:
         sz.update(size)
